@@ -4,6 +4,48 @@ independent confirmation (/tmp/confirm/results/<id>.json, tools/confirm_mutant.s
 tools/mutant_matrix.sh (results in /tmp/confirm/matrix/<id>.<PROP>.rc)."""
 import glob, json, os, re, shutil
 INC = "/verif/seeded/_incoming"
+NEEDS = {
+"C01-1": "callable terminal currents that go from non-zero to exactly zero on every terminal (switched-off pulse; or thermalisation with a ramp starting at 0)",
+"C01-2": "sequence on ONE Device object: make_mesh, terminal_info()/solve, make_mesh with other boundary vertices, solve with non-zero currents",
+"C02-1": "0 < gamma^2|psi| small: weakly inelastic film (gamma <~ 1e-2) or sites with tiny non-zero psi (catastrophic cancellation); gamma=0 and psi=0 unaffected",
+"C02-2": "adaptive=True and a step whose first attempt is refused and a retry succeeds",
+"C03-1": "set_link_exponents called at least twice with different potentials on one MeshOperators (time-dependent field or screening)",
+"C03-2": "Mesh.smooth(k) with k >= 2 and the SOURCE mesh used again afterwards",
+"C04-1": "include_screening=True and two runs in different gauges compared",
+"C04-2": "in-place refresh path with a potential that returns to exactly zero (field pulse, or two calls on one MeshOperators)",
+"C05-1": "adaptive=True and a solve step with a refused first attempt (retry)",
+"C05-2": "final step index N an exact multiple of save_every",
+"C06-1": "terminal_psi == 0 and a seed_solution whose psi is non-zero on the terminal sites",
+"C06-2": "terminal_psi=None and refreshed operators (screening or time-dependent applied potential)",
+"C07-1": "non-convex hole whose vertex mean lies outside the hole (U-shaped slot)",
+"C07-2": "make_mesh() followed by translate(inplace=True) or the translation() context manager",
+"C08-1": "time-dependent applied potential stated in units with tiny numerical values (mm with T)",
+"C08-2": "non-zero terminal currents and a current-unit prefix different from the length-unit prefix (nm with uA)",
+"C09-1": "include_screening=True and the same simulation under different numba thread counts",
+"C09-2": ">= 4 terminals, numpy-scalar (e.g. time-dependent) currents, fresh processes with different PYTHONHASHSEED",
+"C10-1": "first vector potential exactly zero and a later one non-zero (ramp from zero; screening with zero applied field)",
+"C10-2": "include_screening=True; only the first screening iteration of each step from step 1 on",
+"C11-1": "include_screening=True plus a resume from a screening seed",
+"C11-2": "adaptive stepping, save_every < adaptive_window, > window steps, comparison against another save interval",
+"C12-1": "adaptive=False and an update refused at dt_init that is cured by one multiplication",
+"C12-2": "adaptive=True, past the warm-up window, at least one refused-and-retried update, proposal not pinned at dt_max",
+"C13-1": "screening_step_drag == 1.0 with step size < 1",
+"C13-2": "screening on and a step that really hits max_iterations_per_step",
+"C14-1": "Layer with gamma == 0 (or u == 0) and an HDF5 round trip",
+"C14-2": "number as LEFT operand of a time-dependent sub-expression plus a pickle / Solution-file round trip (wrong values from depth 2)",
+"C15-1": "KeyboardInterrupt (not an error) delivered inside the frame writer after the group was created",
+"C15-2": "KeyboardInterrupt in the frame writer at a saved step > 0 (buffer exactly full)",
+"C16-1": "time-dependent leaf returning an array, on the left of an operator, array arguments, leaf shared or evaluation repeated at the same t",
+"C16-2": "two-step sequence: pickle/copy/save the composite, then reuse the same in-memory object",
+"C17-1": "include_screening=True and terminal_psi=None together on a mesh with unequal neighbouring cell areas",
+"C17-2": "device with terminals and terminal_psi=None",
+"C18-1": ">= 2 holes and a point inside a hole that is not the last one",
+"C18-2": "scale with exactly one negative factor (mirror image)",
+"C19-1": "callable currents balanced at t=0 and unbalanced later",
+"C19-2": "seed computed in the same session and a different device derived without re-meshing (copy with another layer, or in-place edit)",
+"C20-1": "Layer with z0 != 0",
+"C20-2": "loop_center with non-zero x or y",
+}
 MISSED_FIRST = {"C01-1", "C01-2", "C02-2", "C03-1", "C03-2", "C04-2", "C05-1", "C06-1", "C09-2", "C10-2", "C16-1", "C19-2", "C20-1"}
 base_fail = open("/tmp/confirm/results/BASE.failing.txt").read() if os.path.exists("/tmp/confirm/results/BASE.failing.txt") else None
 rows = []
@@ -41,7 +83,7 @@ for d in sorted(glob.glob(INC + "/*/")):
         meta = {
             "id": mid, "property": prop, "origin": "independent sub-agent given only the property text and a scratch worktree (round 1)",
             "title": first[0] if first else "", "ported_to_fixed_tree": ported,
-            "needs_to_manifest": "see notes.md (written by the sub-agent: trigger conditions)",
+            "needs_to_manifest": NEEDS.get(mid, "see notes.md"),
             "confirmed": {"head": res["head"], "patch_applies_to_head": True, "demo_exit_without_change": res["demo_rc_clean"], "demo_exit_with_change": res["demo_rc_mutant"],
                           "repository_tests": "non-visualisation test files, failing set identical to the unchanged tree: " + res["tests_summary"].strip(),
                           "how": "tools/confirm_mutant.sh in a fresh git worktree of /repo HEAD (removed afterwards)"},
